@@ -163,6 +163,29 @@ impl FilterBodyAction {
     }
 }
 
+#[cfg(feature = "verif-hooks")]
+impl FilterBodyAction {
+    /// Whether the chain has failed and is passing data through (read-only, verification harness).
+    pub fn verif_in_error(&self) -> bool {
+        self.in_error
+    }
+
+    /// Kinds of the stages of the chain, in order (read-only, verification harness).
+    pub fn verif_chain_kinds(&self) -> Vec<&'static str> {
+        self.chain
+            .iter()
+            .map(|item| match item {
+                FilterBodyActionItem::Html(_) => "html",
+                FilterBodyActionItem::Text(_) => "text",
+                #[cfg(feature = "compress")]
+                FilterBodyActionItem::Encode(_) => "encode",
+                #[cfg(feature = "compress")]
+                FilterBodyActionItem::Decode(_) => "decode",
+            })
+            .collect()
+    }
+}
+
 impl FilterBodyActionItem {
     pub fn new(filter: BodyFilter, content_type: Option<String>) -> Option<Self> {
         match filter {
